@@ -44,7 +44,7 @@ func (c10) Batches(tier string, seed uint64) []core.Batch {
 
 // every exported field of every typed struct must have been compared.
 func (c10) Mandatory(tier string) []string {
-	m := []string{"layout:folded-comma-list", "layout:single-line-comma-list", "layout:folded-dependency", "layout:checksum-block", "accessor:Maintainers", "accessor:HasArchAll:true",
+	m := []string{"layout:folded-comma-list", "layout:single-line-comma-list", "layout:folded-dependency", "layout:checksum-block", "layout:blanks-before-separator", "size:>=2^31", "accessor:Maintainers", "accessor:HasArchAll:true",
 		"accessor:HasArchAll:false", "accessor:AbsFiles", "accessor:DebianSource:found", "accessor:DebianSource:none", "accessor:GetDSC", "accessor:SourcePackage:binnmu",
 		"accessor:SourcePackage:default", "accessor:GetDepends", "accessor:GetBuildDepends", "accessor:Checksums:sha256", "accessor:Checksums:sha512", "accessor:Checksums:none",
 		"accessor:SourceName", "arch:two-part", "arch:all", "arch:wildcard"}
@@ -68,6 +68,8 @@ type c10Doc struct {
 	want   map[string]interface{} // Go field name -> expected value
 	folded bool
 	multi  bool
+	spaced bool
+	big    bool
 }
 
 func newDoc() *c10Doc { return &c10Doc{want: map[string]interface{}{}} }
@@ -156,12 +158,19 @@ func (d *c10Doc) list(r *core.Rand, name, gofield string, elems []string, sep st
 		if r.Chance(1, 4) { // start on the next line
 			conts = append([]string{strings.TrimSuffix(first, sep) + sep}, conts...)
 			first = ""
+		} else if r.Chance(1, 4) && sep != " " { // fold before the separator instead of after it
+			first = strings.TrimSuffix(first, sep)
+			conts[0] = sep + " " + conts[0]
+			d.spaced = true
 		}
 		d.raw(name, first, conts...)
 	} else {
 		j := sep + " "
 		if sep == " " {
 			j = " "
+		} else if r.Chance(1, 5) { // blanks around the separator are insignificant
+			j = r.Pick([]string{" " + sep + " ", " " + sep, "  " + sep + "  ", sep})
+			d.spaced = true
 		}
 		d.raw(name, strings.Join(elems, j))
 	}
@@ -225,12 +234,23 @@ func genFiles(r *core.Rand, base string) []string {
 
 func hexHash(r *core.Rand, n int) string { return r.Str("0123456789abcdef", n) }
 
+// bigSize: file sizes up to the int64 range (files over 2 GiB are common).
+func bigSize(r *core.Rand) int64 {
+	switch r.Intn(6) {
+	case 0:
+		return int64(r.U64() >> uint(1+r.Intn(30)))
+	case 1:
+		return int64(r.Pick3(1<<31-1, 1<<31, 1<<32, 1<<32+1, 1<<40))
+	}
+	return int64(r.Intn(1 << 24))
+}
+
 // checksum block: first line empty, one entry per continuation line.
 func (d *c10Doc) sums(r *core.Rand, name, gofield, algo string, hexlen int, files []string) []control.FileHash {
 	var conts []string
 	var fhs []control.FileHash
 	for _, f := range files {
-		fh := control.FileHash{Algorithm: algo, Hash: hexHash(r, hexlen), Size: int64(r.Intn(1 << 31)), Filename: f}
+		fh := control.FileHash{Algorithm: algo, Hash: hexHash(r, hexlen), Size: bigSize(r), Filename: f}
 		switch algo {
 		case "sha256":
 			fh.ByHash = "SHA256"
@@ -238,6 +258,9 @@ func (d *c10Doc) sums(r *core.Rand, name, gofield, algo string, hexlen int, file
 			fh.ByHash = "SHA512"
 		}
 		fhs = append(fhs, fh)
+		if fh.Size >= 1<<31 {
+			d.big = true
+		}
 		conts = append(conts, fmt.Sprintf("%s %d %s", fh.Hash, fh.Size, fh.Filename))
 	}
 	d.raw(name, "", conts...)
@@ -395,6 +418,12 @@ func (p c10) run(c *core.C, t *core.T, cs c10Case) {
 }
 
 func coverLayout(c *core.C, d *c10Doc) {
+	if d.spaced {
+		c.Cover("layout:blanks-before-separator")
+	}
+	if d.big {
+		c.Cover("size:>=2^31")
+	}
 	if d.folded {
 		c.Cover("layout:folded-comma-list")
 		c.Cover("layout:folded-dependency")
@@ -601,7 +630,7 @@ func (p c10) changes(c *core.C, t *core.T, r *core.Rand) {
 	var conts []string
 	wantFiles := []control.FileListChangesFileHash{}
 	for _, f := range files {
-		e := control.FileListChangesFileHash{FileHash: control.FileHash{Algorithm: "md5", Hash: hexHash(r, 32), Size: int64(r.Intn(1 << 31)), Filename: f},
+		e := control.FileListChangesFileHash{FileHash: control.FileHash{Algorithm: "md5", Hash: hexHash(r, 32), Size: bigSize(r), Filename: f},
 			Component: r.Pick([]string{"devel", "non-free/libs", "python"}), Priority: r.Pick([]string{"optional", "extra", "required"})}
 		wantFiles = append(wantFiles, e)
 		conts = append(conts, fmt.Sprintf("%s %d %s %s %s", e.Hash, e.Size, e.Component, e.Priority, e.Filename))
@@ -943,11 +972,12 @@ func (p c10) sources(c *core.C, r *core.Rand) {
 	c.Nontrivial()
 }
 
-func (p c10) debcontrol(c *core.C, r *core.Rand) {
-	d := newDoc()
+// genDebControl draws a DEBIAN/control paragraph (text + expectations).
+func genDebControl(r *core.Rand, c *core.C) (d *c10Doc, wantSrc string) {
+	d = newDoc()
 	pkg := gen.PkgName(r)
 	d.scalar(r, "Package", "Package", pkg)
-	wantSrc := pkg
+	wantSrc = pkg
 	if r.Bool() {
 		s := gen.PkgName(r)
 		d.scalar(r, "Source", "Source", s)
@@ -959,7 +989,9 @@ func (p c10) debcontrol(c *core.C, r *core.Rand) {
 	an := r.Pick(c10Archs)
 	d.raw("Architecture", an)
 	d.want["Architecture"] = archVal(an)
-	coverArchs(c, []string{an})
+	if c != nil {
+		coverArchs(c, []string{an})
+	}
 	d.scalar(r, "Maintainer", "Maintainer", person(r))
 	if r.Bool() {
 		sz := r.Intn(1 << 20)
@@ -980,6 +1012,11 @@ func (p c10) debcontrol(c *core.C, r *core.Rand) {
 		d.scalar(r, "Homepage", "Homepage", "https://example.org")
 	}
 	d.multiline(r, "Description", "Description")
+	return d, wantSrc
+}
+
+func (p c10) debcontrol(c *core.C, r *core.Rand) {
+	d, wantSrc := genDebControl(r, c)
 	text := d.sb.String()
 	var got deb.Control
 	if err := control.Unmarshal(&got, strings.NewReader(text)); err != nil {
